@@ -37,8 +37,10 @@ import (
 )
 
 const (
-	nTwin  = 12
-	nProxy = 4
+	nTwin     = 12
+	nProxy    = 4
+	nHist     = 4
+	nHistRace = 2
 )
 
 func main() {
@@ -57,6 +59,7 @@ func main() {
 			"a form / multipart content type over a body that does not parse as such is part of the workload (content type and body are independent facts of a message)",
 			"snapshot equality compares start line, header fields grouped by name (Content-Length / Transfer-Encoding compared as framing facts), de-chunked body and trailers; it is demanded only when the snapshot captured the body",
 		},
+		RaceFiles: []string{"/messageview/", "/har/", "/martianlog/", "/marbl/"},
 		Plan: func(tier string, seed int64) []vh.Batch {
 			var bs []vh.Batch
 			for i := 0; i < nTwin; i++ {
@@ -64,6 +67,12 @@ func main() {
 			}
 			for i := 0; i < nProxy; i++ {
 				bs = append(bs, vh.Batch{Name: fmt.Sprintf("proxy-%d", i), TimeoutS: 1500})
+			}
+			for i := 0; i < nHist; i++ {
+				bs = append(bs, vh.Batch{Name: fmt.Sprintf("hist-%d", i), TimeoutS: 1500})
+			}
+			for i := 0; i < nHistRace; i++ {
+				bs = append(bs, vh.Batch{Name: fmt.Sprintf("hist-race-%d", i), Race: true, TimeoutS: 1500})
 			}
 			return bs
 		},
@@ -966,6 +975,248 @@ func runProxy(r *vh.Run, k int) {
 }
 
 // ---------------------------------------------------------------------------
+// history driver: several messages are logged before any of them is forwarded
+
+// histCase is one history: K messages pass the same logger (in order, from
+// several goroutines behind a barrier, or pipelined per goroutine) and only
+// afterwards are serialised; every serialisation must still equal its
+// no-logger twin. This is what a proxy with concurrent connections does.
+type histCase struct {
+	Kind   string `json:"kind"` // c15h
+	Stream string `json:"stream"`
+	Idx    int    `json:"idx"`
+	Cfg    logCfg `json:"cfg"`
+	Mode   string `json:"mode"` // seq | conc | pipe
+}
+
+var histCfgs = []logCfg{{"har", "all"}, {"mv", "full"}, {"text", "h0d0"}, {"marbl", "-"}, {"text", "h0d1"}, {"har", "optout"}, {"mv", "unless-ct"}}
+
+func histCaseOf(stream string, idx int, modes []string) histCase {
+	return histCase{Kind: "c15h", Stream: stream, Idx: idx, Cfg: histCfgs[idx%len(histCfgs)], Mode: modes[(idx/len(histCfgs))%len(modes)]}
+}
+
+type histMsg struct {
+	s          *msgx.Spec
+	reqA, reqB *http.Request
+	resA, resB *http.Response
+	remove     func()
+	mv         *messageview.MessageView
+	captured   bool
+	logErr     error
+	outA, outB []byte
+	errA, errB error
+}
+
+func (m *histMsg) log(e *env, cfg logCfg, hl *har.Logger, tl *martianlog.Logger) {
+	resp := m.s.Resp
+	switch cfg.Logger {
+	case "har":
+		if resp {
+			if m.logErr = hl.ModifyRequest(m.reqB); m.logErr == nil {
+				m.logErr = hl.ModifyResponse(m.resB)
+			}
+		} else {
+			m.logErr = hl.ModifyRequest(m.reqB)
+		}
+	case "text":
+		if resp {
+			m.logErr = tl.ModifyResponse(m.resB)
+		} else {
+			m.logErr = tl.ModifyRequest(m.reqB)
+		}
+	case "marbl":
+		if resp {
+			m.logErr = e.marbl.ModifyResponse(m.resB)
+		} else {
+			m.logErr = e.marbl.ModifyRequest(m.reqB)
+		}
+	case "mv":
+		m.mv = messageview.New()
+		m.captured = true
+		if cfg.Opt == "unless-ct" {
+			m.mv.SkipBodyUnlessContentType("text/", "application/json")
+			m.captured = strings.HasPrefix(m.s.CType, "text/") || strings.HasPrefix(m.s.CType, "application/json")
+		}
+		if resp {
+			m.logErr = m.mv.SnapshotResponse(m.resB)
+		} else {
+			m.logErr = m.mv.SnapshotRequest(m.reqB)
+		}
+	}
+}
+
+func (m *histMsg) serialise() {
+	var a, b bytes.Buffer
+	if m.s.Resp {
+		m.errA, m.errB = m.resA.Write(&a), m.resB.Write(&b)
+	} else {
+		m.errA, m.errB = m.reqA.Write(&a), m.reqB.Write(&b)
+	}
+	m.outA, m.outB = a.Bytes(), b.Bytes()
+}
+
+func history(r *vh.Run, e *env, c histCase) {
+	rng := r.Rng(c.Stream, c.Idx)
+	K := 2 + rng.Intn(7)
+	r.Eval(1)
+	inconc := func(why string) {
+		r.SetCase(c)
+		r.Inconclusive(why, nil)
+	}
+	o := msgx.GenOpts{Rich: true, Zlib: true, MaxSize: 70000}
+	if rng.Intn(4) != 0 {
+		o.NoBig = true
+	}
+	msgs := make([]*histMsg, K)
+	defer func() {
+		for _, m := range msgs {
+			if m != nil && m.remove != nil {
+				m.remove()
+			}
+		}
+	}()
+	for j := range msgs {
+		o.Key = fmt.Sprintf("q%d-%d", c.Idx, j)
+		reqSpec := msgx.GenRequest(rng, o)
+		m := &histMsg{s: reqSpec}
+		if rng.Intn(2) == 0 {
+			m.s = msgx.GenResponse(rng, o, reqSpec.Method)
+		}
+		wire := m.s.Wire()
+		var err error
+		if !m.s.Resp {
+			if m.reqA, err = http.ReadRequest(bufio.NewReader(bytes.NewReader(wire))); err != nil {
+				inconc("net/http rejected a generated request: " + err.Error())
+				return
+			}
+			m.reqB, _ = http.ReadRequest(bufio.NewReader(bytes.NewReader(wire)))
+			m.reqA.RemoteAddr, m.reqB.RemoteAddr = "192.0.2.7:5555", "192.0.2.7:5555"
+		} else {
+			m.reqA, m.reqB = stubRequest(m.s.Method, reqSpec.Target), stubRequest(m.s.Method, reqSpec.Target)
+			if m.resA, err = http.ReadResponse(bufio.NewReader(bytes.NewReader(wire)), m.reqA); err != nil {
+				inconc("net/http rejected a generated response: " + err.Error())
+				return
+			}
+			m.resB, _ = http.ReadResponse(bufio.NewReader(bytes.NewReader(wire)), m.reqB)
+		}
+		if _, m.remove, err = martian.TestContext(m.reqB, nil, nil); err != nil {
+			inconc("martian.TestContext: " + err.Error())
+			return
+		}
+		msgs[j] = m
+	}
+	hl := newHAR(c.Cfg.Opt)
+	tl := martianlog.NewLogger()
+	if c.Cfg.Logger == "text" {
+		tl.SetDecode(c.Cfg.Opt[3] == '1')
+	}
+	tl.SetLogFunc(func(string) {})
+
+	switch c.Mode {
+	case "seq":
+		for _, m := range msgs {
+			m.log(e, c.Cfg, hl, tl)
+		}
+		for _, m := range msgs {
+			m.serialise()
+		}
+	default:
+		G := 2 + rng.Intn(3)
+		if G > K {
+			G = K
+		}
+		var logged, done sync.WaitGroup
+		start := make(chan struct{})
+		logged.Add(G)
+		done.Add(G)
+		for g := 0; g < G; g++ {
+			go func(g int) {
+				defer done.Done()
+				<-start
+				for j := g; j < K; j += G {
+					msgs[j].log(e, c.Cfg, hl, tl)
+				}
+				logged.Done()
+				if c.Mode == "conc" {
+					logged.Wait() // nothing is forwarded before everything is logged
+				}
+				for j := g; j < K; j += G {
+					msgs[j].serialise()
+				}
+			}(g)
+		}
+		close(start)
+		done.Wait()
+	}
+
+	// judge
+	bad := false
+	for j, m := range msgs {
+		s := m.s
+		witness := map[string]interface{}{"history_len": K, "mode": c.Mode, "position": j, "logger": c.Cfg, "message": msgx.Excerpt(s.Wire(), 400),
+			"kind": s.Kind(), "framing": s.FramingClass(), "coding": s.CodingClass(), "body_len": len(s.WireBody())}
+		viol := func(sig, what string) {
+			bad = true
+			r.ViolationCase(c, sig, fmt.Sprintf("[history of %d, %s, message %d] %s", K, c.Mode, j, what), witness)
+		}
+		if m.logErr != nil {
+			viol("C15:no-error:"+inputClass(s), fmt.Sprintf("%s (%s) returned an error: %v", c.Cfg.Logger, c.Cfg.Opt, m.logErr))
+		}
+		if m.errA != nil {
+			inconc("serialising an unlogged twin failed: " + m.errA.Error())
+			continue
+		}
+		sig := "C15:forwarded-identical:" + c.Cfg.Logger + "+history"
+		if m.errB != nil {
+			viol(sig, "after logging, serialising the message fails: "+m.errB.Error())
+			continue
+		}
+		pa, restA, ea := msgx.ParsePrefix(m.outA, s.Resp, s.Method)
+		if ea != nil || !bytes.Equal(pa.Body, s.WireBody()) {
+			inconc(fmt.Sprintf("harness self-check failed on the unlogged twin (%v)", ea))
+			continue
+		}
+		pb, restB, eb := msgx.ParsePrefix(m.outB, s.Resp, s.Method)
+		if eb != nil {
+			witness["with_logger"] = msgx.Excerpt(m.outB, 500)
+			viol(sig, "the message logged earlier no longer serialises to a parseable message: "+eb.Error())
+		} else if d := cmpForwarded(pa, pb); d != "" || !bytes.Equal(restA, restB) {
+			witness["without_logger"] = msgx.Excerpt(m.outA, 500)
+			witness["with_logger"] = msgx.Excerpt(m.outB, 500)
+			viol(sig, fmt.Sprintf("%s (%s): a message logged before other messages were logged is forwarded changed: %s", c.Cfg.Logger, c.Cfg.Opt, d))
+		}
+		r.Count("history_bytes_compared", int64(len(m.outA)))
+		if m.mv != nil && m.logErr == nil && m.captured {
+			checkSnapshot(r, c, s, m.mv, "", witness)
+		}
+	}
+	r.Count("history_messages", int64(K))
+	r.Class(fmt.Sprintf("history|%s/%s|%s|K=%d", c.Cfg.Logger, c.Cfg.Opt, c.Mode, K))
+	if c.Idx%211 == 3 && !bad {
+		r.Sample(map[string]interface{}{"case": c, "messages": K, "first_message": msgx.Excerpt(msgs[0].s.Wire(), 200)})
+	}
+}
+
+func runHist(r *vh.Run, k int, race bool) {
+	total, modes, stream := r.Pick(1200, 12000), []string{"seq", "conc", "pipe"}, "c15-hist"
+	n := nHist
+	if race {
+		total, modes, stream, n = r.Pick(160, 1600), []string{"conc", "pipe"}, "c15-hist-race", nHistRace
+	}
+	per := total / n
+	e := newEnv()
+	for i := 0; i < per; i++ {
+		idx := k*per + i
+		c := histCaseOf(stream, idx, modes)
+		if i%50 == 0 {
+			r.Case(map[string]interface{}{"kind": "block", "stream": stream, "from": idx, "to": idx + 49})
+		}
+		r.SetCase(c)
+		history(r, e, c)
+	}
+}
+
+// ---------------------------------------------------------------------------
 
 func run(r *vh.Run, batch string) {
 	switch {
@@ -975,6 +1226,12 @@ func run(r *vh.Run, batch string) {
 	case strings.HasPrefix(batch, "proxy-"):
 		k, _ := strconv.Atoi(batch[6:])
 		runProxy(r, k)
+	case strings.HasPrefix(batch, "hist-race-"):
+		k, _ := strconv.Atoi(batch[10:])
+		runHist(r, k, true)
+	case strings.HasPrefix(batch, "hist-"):
+		k, _ := strconv.Atoi(batch[5:])
+		runHist(r, k, false)
 	}
 }
 
@@ -988,6 +1245,13 @@ func replay(r *vh.Run, raw json.RawMessage) {
 		p := newProxyRun()
 		defer p.close()
 		p.one(r, c)
+	case c.Kind == "c15h":
+		var h histCase
+		json.Unmarshal(raw, &h)
+		e := newEnv()
+		for i := 0; i < 10; i++ { // concurrent modes: a few attempts
+			history(r, e, h)
+		}
 	default:
 		r.Inconclusive("replay of block cases is not supported; re-run the tier with the same VERIF_SEED", nil)
 	}
